@@ -30,6 +30,8 @@ def hook(task, seq, digest):
     """Installed in RT.hooks: runs inside every generated run body (before an injected fault fires)."""
     for i, m in enumerate(messages(seq, task.slugname)):
         getattr(task.logger, LEVELS[(seq + i) % 4])(m)
+        if i == 0 and seq % 4 == 1:
+            _build_chain_mid_run(task)
     for r in records(seq):
         if isinstance(r, dict) and 'counts' in r:
             dd = defaultdict(dict)
@@ -37,6 +39,26 @@ def hook(task, seq, digest):
             task.save_to_run_info(dd)
         else:
             task.save_to_run_info(r)
+
+
+def _build_chain_mid_run(task):
+    """Another chain over the same config is constructed (not computed) while this task runs - what a comparison
+    task, a notebook cell in another thread or a helper does.  It creates tasks with the same full names, hence the
+    same process-wide loggers; the running task's log must not notice."""
+    import logging
+    # constructing a task sets its (process-wide) logger's level to DEBUG; the model tracks levels per chain
+    # construction of the history, so the levels are put back: the stimulus is about handlers only
+    levels = {n: lg.level for n, lg in logging.Logger.manager.loggerDict.items()
+              if n.startswith('task_') and isinstance(lg, logging.Logger)}
+    try:
+        import taskchain
+        cfg = task.get_config()
+        taskchain.Chain(getattr(cfg, 'original_config', cfg))
+    except Exception:
+        pass    # a stimulus only: configs that cannot stand alone are skipped
+    finally:
+        for n, lv in levels.items():
+            logging.getLogger(n).setLevel(lv)
 
 
 def generator_message(seq, slug):
